@@ -12,7 +12,7 @@
    multiplication): rn with any positive weighting, uniform_discr, product
    spaces are instances (Instances.v, Lists.v). *)
 From Coq Require Import QArith Qreals Reals List Bool.
-From Verif Require Import Base.Num Base.Vec C09.Model C09.IPS C09.Proofs C09.Instances C09.Lists C09.Pointwise C09.Matrix C09.Product C09.Moreau C09.KL C09.Radial C09.NumGrad C09.Transfer.
+From Verif Require Import Base.Num Base.Vec C09.Model C09.IPS C09.Proofs C09.Instances C09.Lists C09.Pointwise C09.Matrix C09.Product C09.Moreau C09.KL C09.Radial C09.NumGrad C09.Transfer Gen.FunctionalLip C09.GenTie.
 Local Open Scope R_scope.
 
 (* T1 (gradient rules, all trees).  For every expression tree, of any depth and
@@ -332,6 +332,50 @@ Proof. exact leaf_l2sq_rel. Qed.
 Theorem pointwise_product_operator_transfer : forall (sQ : Q -> Q) (w1 w2 : list Q) A AR B BR,
   op_rel sQ w1 w2 A AR -> op_rel sQ w1 w2 B BR -> op_rel sQ w1 w2 (op_pwprod A B) (op_pwprod AR BR).
 Proof. exact op_pwprod_rel. Qed.
+
+(* REGENERATED FORMULAS.  Gen/FunctionalLip.v is produced on every run from the
+   grad_lipschitz= / linear= arguments of each __init__ in the CURRENT source; the hand
+   model computes exactly these formulas (so a changed formula breaks this proof). *)
+Theorem lipschitz_uses_generated_formulas : forall (S : RSpace) (e : Rexpr S),
+  lipschitz e =
+  match e with
+  | FLeaf l => lf_lip l
+  | FLeftScal s f => gen_lip_LeftScalarMult s (lipschitz f)
+  | FRightScal f s => gen_lip_RightScalarMult s (lipschitz f)
+  | FRightVec _ _ => gen_lip_RightVectorMult
+  | FSum f g => gen_lip_Sum (lipschitz f) (lipschitz g)
+  | FTrans f _ => gen_lip_Translation (lipschitz f)
+  | FComp _ _ => gen_lip_Comp
+  | @FQuadPert _ X f a u _ =>
+      gen_lip_QuadraticPerturb (lipschitz f) (match u with Some v => Some (snorm X v) | None => None end) a
+  | FProd _ _ => gen_lip_Product
+  | FQuot _ _ => gen_lip_Quotient
+  | @FBregman _ X f _ s => gen_lip_BregmanDistance (lipschitz f) (snorm X s)
+  end.
+Proof. exact (@tie_lipschitz R _). Qed.
+Theorem is_linear_uses_generated_formulas : forall (S : RSpace) (e : Rexpr S),
+  is_linear e =
+  match e with
+  | FLeaf l => lf_linear l
+  | FLeftScal _ f => gen_lin_LeftScalarMult (is_linear f)
+  | FRightScal f _ => gen_lin_RightScalarMult (is_linear f)
+  | FRightVec f _ => gen_lin_RightVectorMult (is_linear f)
+  | FSum f g => gen_lin_Sum (is_linear f) (is_linear g)
+  | FTrans _ _ => gen_lin_Translation
+  | FComp f A => gen_lin_Comp (is_linear f) (op_linear A)
+  | FQuadPert f a _ c => gen_lin_QuadraticPerturb (is_linear f) a c
+  | FProd _ _ => gen_lin_Product
+  | FQuot _ _ => gen_lin_Quotient
+  | FBregman _ _ _ => gen_lin_BregmanDistance
+  end.
+Proof. exact (@tie_is_linear R _). Qed.
+Theorem leaf_constants_are_generated : forall (S : RSpace) (w : list R) (g c : R), 0 < g ->
+  lf_lip (leaf_l2sq S) = gen_lip_L2NormSquared
+  /\ lf_lip (leaf_const S c) = gen_lip_ConstantFunctional
+  /\ lf_linear (leaf_const S c) = gen_lin_ConstantFunctional c
+  /\ lf_lip (leaf_huber sqrt w g) = gen_lip_Huber g
+  /\ lf_lip (leaf_l2 S) = gen_lip_LpNorm.
+Proof. exact gen_leaf_constants. Qed.
 
 (* Non-vacuity: rn(1, weighting=w) satisfies the laws for every w > 0, and a
    tree using all eleven constructors satisfies every premise at every point. *)
